@@ -107,6 +107,10 @@ def choice_optional_start_cases():
     docs1 = ["<f:m>1</f:m>", "<f:o2>5</f:o2><f:m>1</f:m>", "<f:o1>a</f:o1><f:o2>5</f:o2><f:m>1</f:m>", "<f:n>2</f:n>", "<f:p1>q</f:p1><f:n>2</f:n>", "<f:z>zz</f:z>"]
     for i, body in enumerate(docs1):
         yield ("choice-optional-start:single-%d" % i, {"main.xsd": CHOICE_OPT % ""}, '<f:root xmlns:f="urn:fam">%s</f:root>' % body, None, None)
+    # the same branches selected by a caller (value-driven: what is rendered must be read back)
+    for i, (value, body) in enumerate((({"m": 1}, "<f:m>1</f:m>"), ({"o2": 5, "m": 1}, "<f:o2>5</f:o2><f:m>1</f:m>"), ({"n": 2}, "<f:n>2</f:n>"),
+                                       ({"p1": "q", "n": 2}, "<f:p1>q</f:p1><f:n>2</f:n>"), ({"z": "zz"}, "<f:z>zz</f:z>"))):
+        yield ("choice-optional-start:value-%d" % i, {"main.xsd": CHOICE_OPT % ""}, '<f:root xmlns:f="urn:fam">%s</f:root>' % body, value, None)
     rep = ["<f:m>1</f:m><f:z>zz</f:z><f:o1>a</f:o1><f:m>3</f:m>", "<f:z>a</f:z><f:n>2</f:n><f:m>4</f:m>", "<f:n>1</f:n><f:n>2</f:n><f:p1>x</f:p1><f:n>3</f:n>"]
     for i, body in enumerate(rep):
         yield ("choice-optional-start:repeated-%d" % i, {"main.xsd": CHOICE_OPT % 'maxOccurs="unbounded"'}, '<f:root xmlns:f="urn:fam">%s</f:root>' % body, None, None)
@@ -225,7 +229,46 @@ def year_cases():
     yield ("year-widths", {"main.xsd": GYEAR_XSD}, ref, dict(y=[(y, None) for y in years], ym=[(y, 3, None) for y in years], era=(-44, None)), None)
 
 
+CLASH_XSD = ('<xs:schema xmlns:xs="http://www.w3.org/2001/XMLSchema" xmlns:t="urn:fam" targetNamespace="urn:fam" elementFormDefault="qualified">'
+             '<xs:element name="root"><xs:complexType><xs:sequence><xs:element name="k" type="xs:string"/>%s</xs:sequence>'
+             '<xs:attribute name="code" type="xs:string"/><xs:attribute name="k2" type="xs:string"/></xs:complexType></xs:element></xs:schema>')
+
+
+def name_clash_cases():
+    """an attribute and an element of the same name in one type, the element at the top of the content model, inside a
+    choice, inside an inner sequence, inside a group-like nesting of both"""
+    nests = {"top": '<xs:element name="code" type="xs:string" minOccurs="0"/>',
+             "in-choice": '<xs:choice><xs:element name="code" type="xs:string"/><xs:element name="other" type="xs:string"/></xs:choice>',
+             "in-inner-sequence": '<xs:sequence><xs:element name="code" type="xs:string"/><xs:element name="more" type="xs:string" minOccurs="0"/></xs:sequence>',
+             "in-choice-in-sequence": '<xs:sequence><xs:choice><xs:sequence><xs:element name="code" type="xs:string"/></xs:sequence><xs:element name="other" type="xs:string"/></xs:choice></xs:sequence>'}
+    for nest, decl in nests.items():
+        for attrs, body in ((' code="A"', "<f:k>x</f:k><f:code>E</f:code>"), ("", "<f:k>x</f:k><f:code>E</f:code>"), (' code="A" k2="B"', "<f:k>x</f:k><f:code>E</f:code>")):
+            yield ("attribute-element-name-clash:%s:%d" % (nest, len(attrs)), {"main.xsd": CLASH_XSD % decl},
+                   '<f:root xmlns:f="urn:fam"%s>%s</f:root>' % (attrs, body), None, None)
+        if nest in ("in-choice", "in-choice-in-sequence"):
+            yield ("attribute-element-name-clash:%s:other" % nest, {"main.xsd": CLASH_XSD % decl},
+                   '<f:root xmlns:f="urn:fam" code="A"><f:k>x</f:k><f:other>o</f:other></f:root>', None, None)
+
+
+def same_local_name_cases():
+    """global elements with one local name in two imported namespaces, referenced (ref=) with identical occurrence bounds"""
+    def sub(ns):
+        return ('<xs:schema xmlns:xs="http://www.w3.org/2001/XMLSchema" targetNamespace="%s" elementFormDefault="qualified">'
+                '<xs:element name="id" type="xs:%s"/><xs:element name="tag" type="xs:string"/></xs:schema>' % (ns, "int" if ns == "urn:a" else "string"))
+    main = ('<xs:schema xmlns:xs="http://www.w3.org/2001/XMLSchema" xmlns:a="urn:a" xmlns:b="urn:b" targetNamespace="urn:fam" elementFormDefault="qualified">'
+            '<xs:import namespace="urn:a" schemaLocation="a.xsd"/><xs:import namespace="urn:b" schemaLocation="b.xsd"/>'
+            '<xs:element name="root"><xs:complexType><xs:sequence>%s</xs:sequence></xs:complexType></xs:element></xs:schema>')
+    docs = lambda members: {"main.xsd": main % members, "a.xsd": sub("urn:a"), "b.xsd": sub("urn:b")}    # noqa
+    ns = 'xmlns:f="urn:fam" xmlns:a="urn:a" xmlns:b="urn:b"'
+    yield ("ref-same-local-name:a-then-b", docs('<xs:element ref="a:id"/><xs:element ref="b:id"/>'), '<f:root %s><a:id>1</a:id><b:id>two</b:id></f:root>' % ns, None, None)
+    yield ("ref-same-local-name:b-then-a", docs('<xs:element ref="b:id"/><xs:element ref="a:id"/>'), '<f:root %s><b:id>two</b:id><a:id>1</a:id></f:root>' % ns, None, None)
+    yield ("ref-same-local-name:repeated", docs('<xs:element ref="a:tag" minOccurs="0" maxOccurs="unbounded"/><xs:element ref="b:tag" minOccurs="0" maxOccurs="unbounded"/>'),
+           '<f:root %s><a:tag>x</a:tag><a:tag>y</a:tag><b:tag>z</b:tag></f:root>' % ns, None, None)
+
+
 def all_cases():
+    yield from name_clash_cases()
+    yield from same_local_name_cases()
     yield from union_cases()
     yield from year_cases()
     yield from redeclared_name_cases()
@@ -364,7 +407,80 @@ def check_case(label, docs, ref_text, value, build, prop):
     return fails
 
 
+def _seq_docs():
+    main = ('<xs:schema xmlns:xs="http://www.w3.org/2001/XMLSchema" xmlns:t="urn:fam" targetNamespace="urn:fam" elementFormDefault="qualified">'
+            '<xs:import namespace="urn:a" schemaLocation="a.xsd"/><xs:import namespace="urn:b" schemaLocation="b.xsd"/>'
+            '<xs:complexType name="Base"><xs:sequence><xs:element name="label" type="xs:string"/></xs:sequence></xs:complexType>'
+            '<xs:element name="root"><xs:complexType><xs:sequence><xs:element name="item" type="t:Base" maxOccurs="unbounded"/></xs:sequence></xs:complexType></xs:element></xs:schema>')
+
+    def sub(ns, extra):
+        return ('<xs:schema xmlns:xs="http://www.w3.org/2001/XMLSchema" xmlns:f="urn:fam" targetNamespace="%s" elementFormDefault="qualified">'
+                '<xs:import namespace="urn:fam" schemaLocation="main.xsd"/>'
+                '<xs:complexType name="Shape"><xs:complexContent><xs:extension base="f:Base"><xs:sequence><xs:element name="%s" type="xs:int" minOccurs="0"/></xs:sequence>'
+                '<xs:attribute name="%sattr" type="xs:string"/></xs:extension></xs:complexContent></xs:complexType></xs:schema>' % (ns, extra, extra))
+    return {"main.xsd": main, "a.xsd": sub("urn:a", "ra"), "b.xsd": sub("urn:b", "rb")}
+
+
+def run_sequences(res, prop):
+    """several documents decoded one after the other with ONE compiled schema: what a prefix means is decided by each document
+    (the same prefix bound to another namespace in the next one); every step must give what a freshly compiled schema gives"""
+    z = _zeep()
+    docs = _seq_docs()
+
+    def load():
+        return z.xsd.Schema(etree.fromstring(docs["main.xsd"].encode()), transport=make_transport(docs), location="http://h.example/s/main.xsd")
+
+    def doc(which, prefix):
+        ns, extra = ("urn:a", "ra") if which == "a" else ("urn:b", "rb")
+        return ('<f:root xmlns:f="urn:fam" xmlns:xsi="%s" xmlns:%s="%s"><f:item xsi:type="%s:Shape" %sattr="v"><f:label>%s</f:label><%s:%s>7</%s:%s></f:item></f:root>'
+                % (XSI, prefix, ns, prefix, extra, which, prefix, extra, prefix, extra))
+    for order in (["a", "b"], ["b", "a"], ["a", "b", "a"], ["b", "b", "a"]):
+        shared = load()
+        root = shared.get_element("{urn:fam}root")
+        for i, which in enumerate(order):
+            case = dict(kind="multidoc-sequence", order=order, step=i)
+            res.case(key=("multidoc-seq", tuple(order), i, prop), nontrivial=True)
+            res.count("family:documents-in-sequence")
+            fresh = load()
+            froot = fresh.get_element("{urn:fam}root")
+            if prop in ("C03", "C02"):
+                text = doc(which, "p")
+                try:
+                    want = canon_value(froot.parse(etree.fromstring(text.encode()), fresh))
+                except Exception as e:  # noqa
+                    res.failures.append(dict(what="HARNESS: fresh schema refuses the hand-written document: %s" % e, case=case))
+                    break
+                try:
+                    got = canon_value(root.parse(etree.fromstring(text.encode()), shared))
+                except Exception as e:  # noqa
+                    got = "%s: %s" % (type(e).__name__, e)
+                if got != want:
+                    res.failures.append(dict(what="step %d: a valid document decodes to %r with a schema that decoded other documents before, to %r with a fresh one"
+                                             % (i, got, want), case=dict(case, document=text)))
+                    break
+            else:
+                ns, extra = ("urn:a", "ra") if which == "a" else ("urn:b", "rb")
+                try:
+                    def roundtrip(zs, el):
+                        v = el(item=[zs.get_type("{%s}Shape" % ns)(**{"label": which, extra: 7, extra + "attr": "v"})])
+                        parent = etree.Element("p")
+                        el.render(parent, v)
+                        return canon_value(el.parse(etree.fromstring(etree.tostring(parent[0])), zs))
+                    want = roundtrip(fresh, froot)
+                    try:
+                        got = roundtrip(shared, root)
+                    except Exception as e:  # noqa
+                        got = "%s: %s" % (type(e).__name__, e)
+                    if got != want:
+                        res.failures.append(dict(what="step %d: the value read back is %r with a schema that handled other values before, %r with a fresh one" % (i, got, want), case=case))
+                        break
+                except Exception as e:  # noqa
+                    res.failures.append(dict(what="HARNESS: fresh schema round trip raised %s: %s" % (type(e).__name__, e), case=case))
+                    break
+
+
 def run_family(res, prop):
+    run_sequences(res, prop)
     for label, docs, ref_text, value, build in all_cases():
         if prop not in ONLY.get(label.split(":")[0], (prop,)):
             continue
@@ -375,6 +491,12 @@ def run_family(res, prop):
 
 
 def replay(prop, case):
+    if case.get("kind") == "multidoc-sequence":
+        from harness.core import Result
+        r = Result()
+        run_sequences(r, prop)
+        bad = [f for f in r.failures if f["case"].get("order") == case.get("order")]
+        return (not bad), "document sequence rerun: %s" % (bad[0]["what"] if bad else "holds")
     for label, docs, ref_text, value, build in all_cases():
         if label == case.get("label"):
             fails = check_case(label, docs, ref_text, value, build, prop)
